@@ -38,7 +38,7 @@ func (c12) Meta() fw.Meta {
 			"an absent series is the same observable as the all-zero empty series (nil vs zero-length), see DESIGN.md section 4 (fix 0902534)",
 			"error texts are not compared, only success/failure and the not-exist classification",
 		},
-		Obligations: []string{"pairs_view", "pairs_view_raw", "pairs_sum", "pairs_files", "pairs_items", "pairs_success_with_data", "pairs_notexist", "pairs_error", "absent_series_pairs", "escaped_name_pairs", "past_window_pairs", "bad_pattern_pairs", "cli_pairs", "cli_copy_pairs", "cli_diff_remote_side", "path_below_regular_file_pairs"},
+		Obligations: []string{"pairs_view", "pairs_view_raw", "pairs_sum", "pairs_files", "pairs_items", "pairs_success_with_data", "pairs_notexist", "pairs_error", "absent_series_pairs", "escaped_name_pairs", "past_window_pairs", "bad_pattern_pairs", "cli_pairs", "cli_copy_pairs", "cli_diff_remote_side", "path_below_regular_file_pairs", "cases_with_concurrent_clients", "server_socket_writes_delayed", "concurrent_noise_requests_served"},
 		Workers:     8,
 	}
 }
@@ -101,7 +101,12 @@ func (c12) Run(c *fw.Ctx) {
 		c.Count("cases_skipped_after_server_hang", 1)
 		return
 	}
-	u, served, ok := workerServer(c)
+	srv := workerServer
+	if c.Index%4 == 3 {
+		// one scheduler thread, socket writes delayed by 20 ms, other clients reading the same files meanwhile
+		srv = workerServer1P
+	}
+	u, served, ok := srv(c)
 	if !ok {
 		return
 	}
@@ -172,10 +177,7 @@ func (c12) Run(c *fw.Ctx) {
 			hung = true
 			c.Violationf("remote-request-hangs:"+kind, desc, "%s through the server did not return within 90 s (the local call returned at once)", kind)
 			// this worker's server is unusable now: the next case starts a fresh one
-			if cm, ok := c.Env.State["server_cmd"].(*exec.Cmd); ok && cm.Process != nil {
-				cm.Process.Kill()
-			}
-			delete(c.Env.State, "server_url")
+			c12KillServers(c)
 			c.Env.State["c12_server_hung"] = true
 			return false
 		}
@@ -244,131 +246,144 @@ func (c12) Run(c *fw.Ctx) {
 			return f, f + r.Int63n(now-f+1), now, "inside"
 		}
 	}
-	for q := 0; q < 60 && !c.Violated(); q++ {
-		rel := rels[r.Intn(len(rels))]
-		l := files[rel]
-		switch r.Intn(10) {
-		case 0:
-			rel = filepath.Join(caseDir, "itemA", "missing.wsp")
-		case 1:
-			rel = corrupt
-		case 2:
-			rel = filepath.Join(caseDir, "nodir", "x.wsp")
-		case 3:
-			if r.Intn(3) == 0 {
-				rel = filepath.Join(rel, "below-a-file.wsp") // a parent component is a regular file (ENOTDIR, not not-exist)
-				c.Count("path_below_regular_file_pairs", 1)
-			}
+	var noise []string
+	if c.Index%4 == 3 {
+		noise = rels
+		if len(noise) > 6 {
+			noise = noise[:6]
 		}
-		sel := r.Intn(len(l.Archs)+3) - 1 // -1 .. n+1
-		if r.Intn(8) == 0 {
-			sel = -2
-		}
-		from, until, now, wk := pickWindow(l)
-		escaped := strings.ContainsAny(rel, " +%&#ü")
-		switch r.Intn(9) {
-		case 0, 1, 2, 3:
-			var lh *wt.Header
-			var lt wcmd.TimeSeriesList
-			var lerr error
-			local("view", fw.J{"file": rel, "archive": sel}, func() { lh, lt, lerr = wcmd.VerifReadWhisperFile(served, rel, sel, u32(from), u32(until), u32(now)) })
-			var rh *wt.Header
-			var rt wcmd.TimeSeriesList
-			var rerr error
-			remote("view", fw.J{"file": rel, "archive": sel}, func() { rh, rt, rerr = wcmd.VerifReadWhisperFile(u, rel, sel, u32(from), u32(until), u32(now)) })
-			pair("view", fw.J{"file": rel, "archive": sel, "from": from, "until": until, "now": now, "window": wk}, lerr, rerr, func() string {
-				if lh.String() != rh.String() {
-					return "headers differ: " + lh.String() + " vs " + rh.String()
-				}
-				for _, ts := range lt {
-					if ts == nil {
-						c.Count("absent_series_pairs", 1)
-					} else if len(ts.Values()) > 0 {
-						sawData = true
-						c.Count("pairs_success_with_data", 1)
-					}
-				}
-				if escaped {
-					c.Count("escaped_name_pairs", 1)
-				}
-				if wk == "past" {
-					c.Count("past_window_pairs", 1)
-				}
-				return tslEqual(lt, rt)
-			})
-		case 4, 5:
-			var lh *wt.Header
-			var lp wcmd.PointsList
-			var lerr error
-			local("view_raw", fw.J{"file": rel, "archive": sel}, func() { lh, lp, lerr = wcmd.VerifReadWhisperFileRaw(served, rel, sel) })
-			var rh *wt.Header
-			var rp wcmd.PointsList
-			var rerr error
-			remote("view_raw", fw.J{"file": rel, "archive": sel}, func() { rh, rp, rerr = wcmd.VerifReadWhisperFileRaw(u, rel, sel) })
-			pair("view_raw", fw.J{"file": rel, "archive": sel}, lerr, rerr, func() string {
-				if lh.String() != rh.String() {
-					return "headers differ"
-				}
-				if escaped {
-					c.Count("escaped_name_pairs", 1)
-				}
-				return plEqual(lp, rp)
-			})
-		case 6:
-			item := []string{caseDir + ".itemA", caseDir + ".itemB", caseDir + ".deep.er", caseDir + ".emptyitem", caseDir + ".nosuch", caseDir + ".broken", caseDir + ".broken"}[r.Intn(7)]
-			pat := []string{"*.wsp", "*.wsp", "plain.wsp", "zz*.wsp", "*"}[r.Intn(5)]
-			var lh *wt.Header
-			var lt wcmd.TimeSeriesList
-			var lerr error
-			local("sum", fw.J{"item": item, "pattern": pat, "archive": sel}, func() {
-				lh, lt, lerr = wcmd.VerifSumWhisperFile(served, item, pat, sel, u32(from), u32(until), u32(now))
-			})
-			var rh *wt.Header
-			var rt wcmd.TimeSeriesList
-			var rerr error
-			remote("sum", fw.J{"item": item, "pattern": pat, "archive": sel}, func() { rh, rt, rerr = wcmd.VerifSumWhisperFile(u, item, pat, sel, u32(from), u32(until), u32(now)) })
-			pair("sum", fw.J{"item": item, "pattern": pat, "archive": sel, "from": from, "until": until, "now": now}, lerr, rerr, func() string {
-				if lh.String() != rh.String() {
-					return "headers differ"
-				}
-				return tslEqual(lt, rt)
-			})
-		case 7:
-			pat := []string{caseDir + "/*/*.wsp", caseDir + "/itemA/*", caseDir + "/deep/er/*.wsp", caseDir + "/zz*/*.wsp", caseDir + "/[", caseDir + "/itemA/with*", caseDir + "/*/*%*", caseDir + "/item*/*.wsp", caseDir + "/*/er/*.wsp", caseDir + "/edge/*", caseDir + "/edge/*.wsp*"}[r.Intn(11)]
-			var ln []string
-			var lerr error
-			local("files", fw.J{"pattern": pat}, func() { ln, lerr = wcmd.VerifGlobFiles(served, pat) })
-			var rn []string
-			var rerr error
-			remote("files", fw.J{"pattern": pat}, func() { rn, rerr = wcmd.VerifGlobFiles(u, pat) })
-			if strings.HasSuffix(pat, "[") {
-				c.Count("bad_pattern_pairs", 1)
-			}
-			pair("files", fw.J{"pattern": pat}, lerr, rerr, func() string {
-				if strings.Join(ln, "\n") != strings.Join(rn, "\n") {
-					return fmt.Sprintf("name lists differ: %q vs %q", ln, rn)
-				}
-				return ""
-			})
-		default:
-			pat := []string{caseDir + "/*", caseDir + "/item*", caseDir + "/deep/*", caseDir + "/zz*", caseDir + "/[a", caseDir + "/*/*", caseDir + "/*/er", caseDir + "/deep*/*"}[r.Intn(8)]
-			var ln []string
-			var lerr error
-			local("items", fw.J{"pattern": pat}, func() { ln, lerr = wcmd.VerifGlobItems(served, pat) })
-			var rn []string
-			var rerr error
-			remote("items", fw.J{"pattern": pat}, func() { rn, rerr = wcmd.VerifGlobItems(u, pat) })
-			if strings.HasSuffix(pat, "[a") {
-				c.Count("bad_pattern_pairs", 1)
-			}
-			pair("items", fw.J{"pattern": pat}, lerr, rerr, func() string {
-				if strings.Join(ln, "\n") != strings.Join(rn, "\n") {
-					return fmt.Sprintf("item lists differ: %q vs %q", ln, rn)
-				}
-				return ""
-			})
+		c.Count("cases_with_concurrent_clients", 1)
+		if server1PDelayed(c) {
+			c.Count("server_socket_writes_delayed", 1)
 		}
 	}
+	withServerNoise(c, u, noise, func() {
+		for q := 0; q < 60 && !c.Violated(); q++ {
+			rel := rels[r.Intn(len(rels))]
+			l := files[rel]
+			switch r.Intn(10) {
+			case 0:
+				rel = filepath.Join(caseDir, "itemA", "missing.wsp")
+			case 1:
+				rel = corrupt
+			case 2:
+				rel = filepath.Join(caseDir, "nodir", "x.wsp")
+			case 3:
+				if r.Intn(3) == 0 {
+					rel = filepath.Join(rel, "below-a-file.wsp") // a parent component is a regular file (ENOTDIR, not not-exist)
+					c.Count("path_below_regular_file_pairs", 1)
+				}
+			}
+			sel := r.Intn(len(l.Archs)+3) - 1 // -1 .. n+1
+			if r.Intn(8) == 0 {
+				sel = -2
+			}
+			from, until, now, wk := pickWindow(l)
+			escaped := strings.ContainsAny(rel, " +%&#ü")
+			switch r.Intn(9) {
+			case 0, 1, 2, 3:
+				var lh *wt.Header
+				var lt wcmd.TimeSeriesList
+				var lerr error
+				local("view", fw.J{"file": rel, "archive": sel}, func() { lh, lt, lerr = wcmd.VerifReadWhisperFile(served, rel, sel, u32(from), u32(until), u32(now)) })
+				var rh *wt.Header
+				var rt wcmd.TimeSeriesList
+				var rerr error
+				remote("view", fw.J{"file": rel, "archive": sel}, func() { rh, rt, rerr = wcmd.VerifReadWhisperFile(u, rel, sel, u32(from), u32(until), u32(now)) })
+				pair("view", fw.J{"file": rel, "archive": sel, "from": from, "until": until, "now": now, "window": wk}, lerr, rerr, func() string {
+					if lh.String() != rh.String() {
+						return "headers differ: " + lh.String() + " vs " + rh.String()
+					}
+					for _, ts := range lt {
+						if ts == nil {
+							c.Count("absent_series_pairs", 1)
+						} else if len(ts.Values()) > 0 {
+							sawData = true
+							c.Count("pairs_success_with_data", 1)
+						}
+					}
+					if escaped {
+						c.Count("escaped_name_pairs", 1)
+					}
+					if wk == "past" {
+						c.Count("past_window_pairs", 1)
+					}
+					return tslEqual(lt, rt)
+				})
+			case 4, 5:
+				var lh *wt.Header
+				var lp wcmd.PointsList
+				var lerr error
+				local("view_raw", fw.J{"file": rel, "archive": sel}, func() { lh, lp, lerr = wcmd.VerifReadWhisperFileRaw(served, rel, sel) })
+				var rh *wt.Header
+				var rp wcmd.PointsList
+				var rerr error
+				remote("view_raw", fw.J{"file": rel, "archive": sel}, func() { rh, rp, rerr = wcmd.VerifReadWhisperFileRaw(u, rel, sel) })
+				pair("view_raw", fw.J{"file": rel, "archive": sel}, lerr, rerr, func() string {
+					if lh.String() != rh.String() {
+						return "headers differ"
+					}
+					if escaped {
+						c.Count("escaped_name_pairs", 1)
+					}
+					return plEqual(lp, rp)
+				})
+			case 6:
+				item := []string{caseDir + ".itemA", caseDir + ".itemB", caseDir + ".deep.er", caseDir + ".emptyitem", caseDir + ".nosuch", caseDir + ".broken", caseDir + ".broken"}[r.Intn(7)]
+				pat := []string{"*.wsp", "*.wsp", "plain.wsp", "zz*.wsp", "*"}[r.Intn(5)]
+				var lh *wt.Header
+				var lt wcmd.TimeSeriesList
+				var lerr error
+				local("sum", fw.J{"item": item, "pattern": pat, "archive": sel}, func() {
+					lh, lt, lerr = wcmd.VerifSumWhisperFile(served, item, pat, sel, u32(from), u32(until), u32(now))
+				})
+				var rh *wt.Header
+				var rt wcmd.TimeSeriesList
+				var rerr error
+				remote("sum", fw.J{"item": item, "pattern": pat, "archive": sel}, func() { rh, rt, rerr = wcmd.VerifSumWhisperFile(u, item, pat, sel, u32(from), u32(until), u32(now)) })
+				pair("sum", fw.J{"item": item, "pattern": pat, "archive": sel, "from": from, "until": until, "now": now}, lerr, rerr, func() string {
+					if lh.String() != rh.String() {
+						return "headers differ"
+					}
+					return tslEqual(lt, rt)
+				})
+			case 7:
+				pat := []string{caseDir + "/*/*.wsp", caseDir + "/itemA/*", caseDir + "/deep/er/*.wsp", caseDir + "/zz*/*.wsp", caseDir + "/[", caseDir + "/itemA/with*", caseDir + "/*/*%*", caseDir + "/item*/*.wsp", caseDir + "/*/er/*.wsp", caseDir + "/edge/*", caseDir + "/edge/*.wsp*"}[r.Intn(11)]
+				var ln []string
+				var lerr error
+				local("files", fw.J{"pattern": pat}, func() { ln, lerr = wcmd.VerifGlobFiles(served, pat) })
+				var rn []string
+				var rerr error
+				remote("files", fw.J{"pattern": pat}, func() { rn, rerr = wcmd.VerifGlobFiles(u, pat) })
+				if strings.HasSuffix(pat, "[") {
+					c.Count("bad_pattern_pairs", 1)
+				}
+				pair("files", fw.J{"pattern": pat}, lerr, rerr, func() string {
+					if strings.Join(ln, "\n") != strings.Join(rn, "\n") {
+						return fmt.Sprintf("name lists differ: %q vs %q", ln, rn)
+					}
+					return ""
+				})
+			default:
+				pat := []string{caseDir + "/*", caseDir + "/item*", caseDir + "/deep/*", caseDir + "/zz*", caseDir + "/[a", caseDir + "/*/*", caseDir + "/*/er", caseDir + "/deep*/*"}[r.Intn(8)]
+				var ln []string
+				var lerr error
+				local("items", fw.J{"pattern": pat}, func() { ln, lerr = wcmd.VerifGlobItems(served, pat) })
+				var rn []string
+				var rerr error
+				remote("items", fw.J{"pattern": pat}, func() { rn, rerr = wcmd.VerifGlobItems(u, pat) })
+				if strings.HasSuffix(pat, "[a") {
+					c.Count("bad_pattern_pairs", 1)
+				}
+				pair("items", fw.J{"pattern": pat}, lerr, rerr, func() string {
+					if strings.Join(ln, "\n") != strings.Join(rn, "\n") {
+						return fmt.Sprintf("item lists differ: %q vs %q", ln, rn)
+					}
+					return ""
+				})
+			}
+		}
+	})
 	if so := serverOutput(c); strings.Contains(so, "panic serving") {
 		c.Violationf("server-panic", fw.J{"server_output": truncStr(so[strings.Index(so, "panic serving"):], 3000)}, "the server panicked while answering a request")
 		return
@@ -400,12 +415,18 @@ func c12RemoteCLIHung(c *fw.Ctx, name string, lres, rres cliResult) bool {
 		return false
 	}
 	c.Violationf("remote-request-hangs:cli-"+name, fw.J{"local": lres.brief(), "remote": rres.brief()}, "%s against the server did not finish within 100 s (against the directory it took %d s)", name, lres.T1-lres.T0)
-	if cm, ok := c.Env.State["server_cmd"].(*exec.Cmd); ok && cm.Process != nil {
-		cm.Process.Kill()
-	}
-	delete(c.Env.State, "server_url")
+	c12KillServers(c)
 	c.Env.State["c12_server_hung"] = true
 	return true
+}
+
+func c12KillServers(c *fw.Ctx) {
+	for _, k := range []string{"server", "server1p"} {
+		if cm, ok := c.Env.State[k+"_cmd"].(*exec.Cmd); ok && cm.Process != nil {
+			cm.Process.Kill()
+		}
+		delete(c.Env.State, k+"_url")
+	}
 }
 
 // c12CLI runs the real commands against the directory and against the URL inside one wall-clock second.
